@@ -319,9 +319,10 @@ class Ctx:
                                 proofs_broken=[p["what"] for p in self.p_fail], notes=self.notes, **self.extra_cov),
                   assumptions=ASSUME.get(self.prop, []) + ["inputs are NUL-free byte strings stored NUL-terminated, length == strlen; \"C\" locale; malloc does not fail"],
                   wall_s=round(wall, 2), violations=0 if rc == 0 else max(1, len(unlisted)))
-        os.makedirs(os.path.join(VERIF, "evidence"), exist_ok=True)
-        with open(os.path.join(VERIF, "evidence", self.prop + ".json"), "w") as f:
-            json.dump(ev, f, indent=1, ensure_ascii=False, default=str)
+        if not getattr(self, "replaying", False):          # a replay re-executes one input: it is not a run of the check
+            os.makedirs(os.path.join(VERIF, "evidence"), exist_ok=True)
+            with open(os.path.join(VERIF, "evidence", self.prop + ".json"), "w") as f:
+                json.dump(ev, f, indent=1, ensure_ascii=False, default=str)
         vlib.log("%s %s: %d evals, %d K mismatches, %d S failures, %d crashes, P %d/%d, %.1fs -> exit %d" %
                  (self.prop, self.tier, self.evals, len(self.k_fail), len(self.s_fail), len(self.crashes), self.discharged, self.obligations, wall, rc))
         return rc
@@ -1719,6 +1720,7 @@ PROPS["C20"] = c20
 
 
 def replay(ctx, path):
+    ctx.replaying = True
     obj = json.load(open(path))
     w = obj.get("witness", {})
     op = w.get("op")
